@@ -649,3 +649,100 @@ Proof.
     cbn [map combine map_opt]. rewrite IH. reflexivity. }
   rewrite E. reflexivity.
 Qed.
+
+(** * zip, .shape, .reshape, tuple-target comprehensions, 1-D float arrays ([arr]) *)
+Lemma unQ_VQ l : unQ (map VQ l) = Some l.
+Proof. unfold unQ. induction l as [|x t IH]; [reflexivity|]. cbn [map map_opt toQ]. cbn in IH. rewrite IH. reflexivity. Qed.
+
+Lemma zipn2 (a b : list val) :
+  zipn (List.length a) [a; b] = map (fun p => VT [fst p; snd p]) (combine a b).
+Proof.
+  revert b. induction a as [|x t IH]; intros b; [reflexivity|].
+  destruct b as [|y u]; [reflexivity|]. cbn [List.length zipn heads_tails combine map fst snd]. rewrite IH. reflexivity.
+Qed.
+
+Lemma zipn3 (a b c : list val) :
+  zipn (List.length a) [a; b; c] =
+  map (fun p => VT [fst (fst p); snd (fst p); snd p]) (combine (combine a b) c).
+Proof.
+  revert b c. induction a as [|x t IH]; intros b c; [reflexivity|].
+  destruct b as [|y u]; [reflexivity|]. destruct c as [|z v]; [reflexivity|].
+  cbn [List.length zipn heads_tails combine map fst snd]. rewrite IH. reflexivity.
+Qed.
+
+Lemma call_zip2 a b la lb :
+  seq_of a = Some la -> seq_of b = Some lb ->
+  call "zip" [a; b] = Some (Some (VL (map (fun p => VT [fst p; snd p]) (combine la lb)))).
+Proof.
+  intros Ha Hb. cbn -[zipn]. rewrite Ha, Hb. cbn [hd]. rewrite zipn2. reflexivity.
+Qed.
+
+Lemma call_zip3 a b c la lb lc :
+  seq_of a = Some la -> seq_of b = Some lb -> seq_of c = Some lc ->
+  call "zip" [a; b; c] =
+  Some (Some (VL (map (fun p => VT [fst (fst p); snd (fst p); snd p]) (combine (combine la lb) lc)))).
+Proof.
+  intros Ha Hb Hc. cbn -[zipn]. rewrite Ha, Hb, Hc. cbn [hd]. rewrite zipn3. reflexivity.
+Qed.
+
+Lemma combine_map {A B A' B'} (f : A -> A') (g : B -> B') a b :
+  combine (map f a) (map g b) = map (fun p => (f (fst p), g (snd p))) (combine a b).
+Proof.
+  revert b. induction a as [|x t IH]; intros [|y u]; try reflexivity.
+  cbn [map combine fst snd]. rewrite IH. reflexivity.
+Qed.
+
+Lemma rect_arr c : rect (arr c) = true.
+Proof.
+  unfold arr. cbn [rect]. apply andb_true_intro. split.
+  - induction c; cbn; auto.
+  - destruct c as [|x t]; cbn [map]; [reflexivity|]. induction t; cbn; auto.
+Qed.
+
+Lemma shape_of_arr c : shape_of (arr c) = [List.length c].
+Proof. unfold arr. cbn [shape_of]. rewrite map_length. destruct c; reflexivity. Qed.
+
+Lemma call_shape_arr c : call "attr:shape" [arr c] = Some (Some (VT [VZ (Z.of_nat (List.length c))])).
+Proof.
+  assert (R := rect_arr c). assert (S := shape_of_arr c). unfold arr in *.
+  cbn -[rect shape_of]. rewrite R, S. reflexivity.
+Qed.
+
+Lemma flatten_arr_arr c : flatten_arr (arr c) = map VQ c.
+Proof.
+  unfold arr. cbn [flatten_arr]. induction c as [|x t IH]; [reflexivity|].
+  cbn [map flat_map flatten_arr app]. rewrite IH. reflexivity.
+Qed.
+
+(** p.reshape((n,)) of a 1-D array: p itself, or ValueError when p has not n elements *)
+Lemma call_reshape_arr p n :
+  call "meth:reshape" [arr p; VT [VZ (Z.of_nat n)]] =
+  if (List.length p =? n)%nat then Some (Some (arr p)) else Some None.
+Proof.
+  assert (R := rect_arr p). assert (F := flatten_arr_arr p). unfold arr in *.
+  cbn -[rect flatten_arr Z.of_nat Z.eqb Z.leb]. rewrite R, F, map_length.
+  assert (E1 : (Z.of_nat n =? -1)%Z = false) by (apply Z.eqb_neq; lia).
+  rewrite E1. cbn [orb]. rewrite Zeqb_of_nat, Nat.eqb_sym.
+  destruct (List.length p =? n)%nat; [reflexivity|].
+  assert (E2 : (0 <=? Z.of_nat n)%Z = true) by (apply Z.leb_le; lia). rewrite E2. reflexivity.
+Qed.
+
+Lemma sub_arr_arr (a b : list Q) :
+  List.length a = List.length b ->
+  binop_val Sub (arr a) (arr b) = Some (arr (map (fun p => (fst p - snd p)%Q) (combine a b))).
+Proof.
+  intros H. unfold binop_val, arr. rewrite !map_length, H, Nat.eqb_refl.
+  assert (E : map_opt (arith2 Sub) (combine (map VQ a) (map VQ b)) =
+              Some (map VQ (map (fun p => (fst p - snd p)%Q) (combine a b)))).
+  { clear H. revert b. induction a as [|x t IH]; intros [|y u]; try reflexivity.
+    cbn [map combine map_opt]. rewrite IH. reflexivity. }
+  rewrite E. reflexivity.
+Qed.
+
+Lemma comp_bind_eq targets v env : comp_bind targets v env = bind_pattern targets v env.
+Proof. reflexivity. Qed.
+
+Lemma call_len_map {A} (f : A -> val) (l : list A) (wrap : list val -> val) :
+  (wrap = VL \/ wrap = VT \/ wrap = VA) ->
+  call "len" [wrap (map f l)] = Some (Some (VZ (Z.of_nat (List.length l)))).
+Proof. intros [->|[->| ->]]; cbn -[Z.of_nat]; rewrite map_length; reflexivity. Qed.
